@@ -107,6 +107,8 @@ func (ch *ConnectionHandler) muxHandler(protocol string, downstreamConnection io
 			if err != nil {
 				return err
 			}
+			// PipeData only closes the side opposite to the one that ended first
+			defer streams.TryClose(upstreamConnection)
 			return streams.PipeData(downstreamConnection, upstreamConnection)
 		}
 	}
